@@ -47,7 +47,7 @@ instance : Inhabited Expr := ⟨.bool false ⟨0, 0⟩⟩
 inductive IncludeSrc
   | static (tplIdx : Nat)                    -- compiled at parse time; index into the compile result's sub-templates
   | empty                                    -- `if_exists` and the file was not there
-  | lazy (e : Expr) (ifExists : Bool)
+  | lazy (e : Expr) (ifExists : Bool) (referrer : Nat)   -- referrer: the template the tag is written in
 
 inductive Node
   | html (val : Bytes) (trimL trimR afterBlock beforeBlock : Bool) (owner : Nat)
